@@ -1175,6 +1175,18 @@ def _infer_expr_type(
 
         signature = tuple(arg_types)
         if ctx is not None:
+            caller_meta = ctx.get("current_function")
+            if (
+                isinstance(caller_meta, dict)
+                and caller_meta.get("name")
+                and fname not in ctx.get("function_sources", {})
+            ):
+                # a helper defined further down: its return type is not known yet, so the
+                # calling helper is parsed again once the definition has been seen
+                module_ctx = ctx.get("_module_ctx", ctx)
+                module_ctx.setdefault("_unresolved_calls", {}).setdefault(
+                    fname, set()
+                ).add(caller_meta["name"])
             signature_map: Dict[str, List[Tuple[str, ...]]] = ctx.setdefault(
                 "function_call_signatures", {}
             )
@@ -1688,7 +1700,7 @@ def _parse_function(
     if "tmp_counter" in ctx:
         child_ctx["tmp_counter"] = ctx["tmp_counter"]
 
-    fn_meta: Dict[str, object] = {"return_types": [], "has_void": False}
+    fn_meta: Dict[str, object] = {"return_types": [], "has_void": False, "name": name}
     child_ctx["current_function"] = fn_meta
 
     params_order: List[Tuple[str, int]] = []
@@ -1772,6 +1784,21 @@ def _parse_function(
         for requested in pending:
             if requested != final_signature:
                 _ensure_function_variant(name, requested, ctx)
+        waiting = ctx.get("_module_ctx", ctx).get("_unresolved_calls", {}).pop(name, set())
+        sources = ctx.get("function_sources", {})
+        for caller in sorted(waiting):
+            if caller == name or caller not in sources:
+                continue
+            caller_params, caller_block = sources[caller]
+            primary = ctx.get("function_primary_signature", {}).get(caller)
+            for variant_signature in list(defs.get(caller, {})):
+                _parse_function(
+                    caller,
+                    caller_params,
+                    list(caller_block),
+                    ctx,
+                    forced_signature=None if variant_signature == primary else variant_signature,
+                )
 
     return func_node
 
